@@ -33,6 +33,21 @@ CLAIMED["C08"] = dict(
          "{a,b} (haystack<=8/11) and {a,b,c} (<=5/7), all needles<=4/3, all starts; seeded random beyond.",
     ref="6 C08")
 
+CLAIMED["C06"] = dict(
+    technique="Lean 4 theorems: packed-word validator = Unicode Table 3-7 (bit masks -> byte ranges), scanner/ASCII/count/repair loops by induction; exhaustive short-string correspondence at every alignment",
+    text="Theorems for all byte strings: the validator (lead-byte table + packed-word ranges/masks) accepts exactly the "
+         "concatenations of Unicode Table 3-7 sequences and reports the length of the longest well-formed prefix; the ASCII "
+         "check returns the first byte >= 0x80 for every length and address alignment and never reads outside the string; the "
+         "code point count equals the number of non-continuation bytes at every alignment; gp_str_to_valid equals the greedy "
+         "repair, yields well-formed output when the replacement is, is the identity on valid input and keeps well-formed "
+         "stretches in place.",
+    note="Modelled, not verified: the 8-byte memcpy block tests (x & 0x80..80, SWAR popcount) are modelled at byte level "
+         "(any byte >= 0x80 / number of continuation bytes) and tied by the correspondence run only; gp_bytes_to_valid (ASCII "
+         "repair) has a model and correspondence but no theorem. Correspondence: every string of length <= 2 (UTF-8) and <= 2 at "
+         "all 8 alignments (ASCII, count), length 3 with lattice first bytes (quick) / all first bytes (thorough), lattice^4 "
+         "packed words, random/lattice strings to 4 KiB.",
+    ref="6 C06")
+
 PENDING = {}
 
 def main():
